@@ -609,7 +609,18 @@ def r09l(F):
 		out.append(Result('09.l', False, 'floor:release-sites', 'only %d release sites conditional on the result of %s (expected >= 2)' % (n_rel, short), n_rel, where=F.where(fn)))
 	return out
 
+def r09m(F):
+	"""restart: in-flight updates that did not reach the monitor are replayed; the channel counts as fully persisted only when ALL of them did
+	(same structural rule as 10.c - releasing held messages / completion actions after a partial replay is a C09 violation too)"""
+	import C10
+	out = []
+	for r in C10.r10c(F):
+		r.rule = '09.m'
+		out.append(r)
+	return out
+
 RULES = [
+	('09.m', 'restart: every in-flight update missing from the monitor is replayed; all-completed means all', r09m),
 	('09.a', 'monitor update ids advance by +1 at frozen sites; blocked updates form a FIFO', r09a),
 	('09.b', 'every ChannelMonitorUpdate is built with the channel\'s current update id', r09b),
 	('09.c', 'builders of a new update pause the channel (MonitorUpdateInProgress) on every path returning it', r09c),
